@@ -259,6 +259,10 @@ def zone_pool(tz):
             ('offsetB', tz.tzoffset('B', 3600)), ('offsetC', tz.tzoffset('A', -3600)), ('offset-inst', tz.tzoffset.instance('A', 3600)),
             ('str1', tz.tzstr('EST5EDT,M3.2.0/2,M11.1.0/2')), ('str1i', tz.tzstr.instance('EST5EDT,M3.2.0/2,M11.1.0/2')), ('str2', tz.tzstr('EST5EDT')),
             ('str3', tz.tzstr('CET-1CEST,M3.5.0,M10.5.0/3')), ('strfixed', tz.tzstr('EST5')),
+            # 'GMT+h' forms: the sign convention is part of the object (posix_offset), also after a copy or a pickle
+            ('gmt+3', tz.tzstr('GMT+3')), ('gmt+3-posix', tz.tzstr('GMT+3', posix_offset=True)), ('utc-4-posix', tz.tzstr('UTC-4', posix_offset=True)),
+            ('gmt+3-rule-posix', tz.tzstr('GMT+3BST+2,M3.5.0,M10.5.0', posix_offset=True)), ('gmt+3-rule', tz.tzstr('GMT+3BST+2,M3.5.0,M10.5.0')),
+            ('utc+0530-posix', tz.tzstr('UTC+05:30', posix_offset=True)), ('gmt+3-inst-posix', tz.tzstr.instance('GMT+3', True)),
             ('range1', tz.tzrange('EST', -18000, 'EDT')),
             ('range2', tz.tzrange('EST', -18000, 'EDT', -14400, relativedelta(hours=+2, month=4, day=1, weekday=SU(+1)),
                                   relativedelta(hours=+1, month=10, day=31, weekday=SU(-1)))),
